@@ -215,7 +215,13 @@ def tensor_method(it: Any, v: TV, name: str, args: List[Any], kwargs: Dict[str, 
             dtype = None
     elif name in CAST_METHODS:
         dtype = CAST_METHODS[name]
-    elif name == "view" and len(args) == 1 and canon_dtype(args[0]) is not None:
+    if name in CAST_METHODS or name == "to":
+        # precision typestate: a value whose dtype is an input's (it may be float64) converted to a fixed
+        # narrower floating dtype loses precision for that input
+        NARROW = {"torch.float32": 32, "torch.float16": 16, "torch.bfloat16": 16}
+        if isinstance(v.dtype, tuple) and v.dtype and v.dtype[0] == "same" and isinstance(dtype, str) and dtype in NARROW:
+            it.log("narrowing-cast", node, recv=v, from_dtype=v.dtype, to_dtype=dtype, method=name)
+    if name == "view" and len(args) == 1 and canon_dtype(args[0]) is not None:
         newd = canon_dtype(args[0])
         it.log("bitcast", node, recv=v, from_dtype=v.dtype, to_dtype=newd)
         dtype = newd
@@ -377,6 +383,9 @@ def call_ext(it: Any, f: ExtV, args: List[Any], kwargs: Dict[str, Any], node: An
                 if any(isinstance(a, Unknown) for a in args):
                     return Unknown(name)
                 x = A._sym(args[0])
+                if short in ("log", "sqrt") and isinstance(x, (int, sp.Basic)) and getattr(sp.sympify(x), "is_number", False) and (sp.sympify(x) < 0 or (short == "log" and sp.sympify(x) == 0)):
+                    it.log("raise", node, exc="ValueError")  # math domain error
+                    return BOTTOM
                 if short == "log" and len(args) == 2:
                     return num(sp.log(x) / sp.log(A._sym(args[1])))
                 fn = {"log": sp.log, "exp": sp.exp, "sqrt": sp.sqrt, "floor": sp.floor, "ceil": sp.ceiling}[short]
